@@ -40,6 +40,14 @@ fwd!(CanDeriveDebug can_derive_debug, CanDeriveDefault can_derive_default, CanDe
      CanDerivePartialEq can_derive_partialeq, CanDeriveEq can_derive_eq, CanDeriveOrd can_derive_ord);
 /*DERIVES_OF_ITEM*/
 
+
+// ---- the four builder methods that couple the comparison-derive options (methods blocks of the options! entries, options/mod.rs) ----
+pub struct Builder { pub options: Options }
+impl Builder {
+/*DERIVE_OPTION_METHODS*/
+}
+/// what Rust requires between the four traits: Ord: Eq + PartialOrd, PartialOrd: PartialEq, Eq: PartialEq
+pub fn options_closed(o: &Options) -> bool { (!o.derive_ord || (o.derive_partialord && o.derive_eq)) && (!o.derive_partialord || o.derive_partialeq) && (!o.derive_eq || o.derive_partialeq) }
 #[cfg(kani)]
 mod proofs {
     use super::*;
@@ -63,6 +71,29 @@ mod proofs {
         assert!(id.can_derive_partialord(&ctx) == (ctx.options.derive_partialord && peq_yes));
         assert!(id.can_derive_eq(&ctx) == (ctx.options.derive_eq && peq_yes && !float), "Eq offered for a type containing a float, or against the option / analysis");
         assert!(id.can_derive_ord(&ctx) == (ctx.options.derive_ord && peq_yes && !float), "Ord offered for a type containing a float, or against the option / analysis");
+    }
+    /// inductive step: whatever sequence of builder calls produced the options, the comparison-derive options stay closed under Rust's supertrait requirements
+    #[kani::proof]
+    fn comparison_derive_options_stay_closed_under_supertraits() {
+        let mut ctx = any_ctx();
+        kani::assume(options_closed(&ctx.options));            // holds for the defaults (all four off) and, by this very harness, after every call
+        let b = Builder { options: ctx.options };
+        let on: bool = kani::any(); let which: u8 = kani::any();
+        let b = match which { 0 => b.derive_partialord(on), 1 => b.derive_ord(on), 2 => b.derive_partialeq(on), _ => { kani::assume(which == 3); b.derive_eq(on) } };
+        assert!(options_closed(&b.options), "a builder call leaves the derive options in a state where Ord is derived without Eq / PartialOrd, or PartialOrd / Eq without PartialEq (E0277 in the bindings)");
+        kani::cover!(which == 1 && on, "derive_ord(true)");
+    }
+    #[kani::proof]
+    fn derived_set_is_closed_under_supertraits() {
+        let ctx = any_ctx();
+        kani::assume(options_closed(&ctx.options));            // established by comparison_derive_options_stay_closed_under_supertraits
+        let item = Item { id: ItemId(1), ann: Annotations { no_copy: kani::any(), no_debug: kani::any(), no_default: kani::any() } };
+        let d = derives_of_item(&item, &ctx, kani::any());
+        assert!(!d.contains(DerivableTraits::ORD) || (d.contains(DerivableTraits::EQ) && d.contains(DerivableTraits::PARTIAL_ORD)), "derive(Ord) without Eq / PartialOrd");
+        assert!(!d.contains(DerivableTraits::PARTIAL_ORD) || d.contains(DerivableTraits::PARTIAL_EQ), "derive(PartialOrd) without PartialEq");
+        assert!(!d.contains(DerivableTraits::EQ) || d.contains(DerivableTraits::PARTIAL_EQ), "derive(Eq) without PartialEq");
+        assert!(!d.contains(DerivableTraits::COPY) || d.contains(DerivableTraits::CLONE), "derive(Copy) without Clone");
+        kani::cover!(d.contains(DerivableTraits::ORD), "Ord derived");
     }
     #[kani::proof]
     fn derive_set_assembly() {
